@@ -222,4 +222,20 @@ def run(ctx):
     ctx.floor('C07.r5', 'ban_peer in finalize_check_points', len(bans), 1)
     # reviewed reference of the checker functions' decision structure (engine/census.py)
     from rules import census_fns
+    # r6 (F68, F70): contradiction of ANY finalized check point is detected; a repeated consistent answer is not a contradiction
+    gcp = P.call_sites(F, 'Storage::get_check_points')
+    cmpc = [c for c in P.closures_of(F, transitive=False) if any(k.endswith('Byte32 as PartialEq>::ne') or k.endswith('Byte32 as PartialEq>::eq') for _, k, _ in P.call_keys(c))]
+    fdu6 = DefUse(F)
+    used = False
+    for b_, k_, t_ in P.call_keys(F):
+        if k_.endswith('Iterator>::any') or k_.endswith('Iterator>::all'):
+            if any(o[0] == 'call' and o[1].endswith('Storage::get_check_points') for o in fdu6.origins(t_.args[0], stop_at_calls=False)):
+                used = True
+    ctx.ob('C07.r6', F.name, 'the entries of a peer before the last finalized index are compared with the stored finalized check points before they are dropped',
+           bool(gcp) and bool(cmpc) and used,
+           failing_history=None if (gcp and cmpc and used) else 'quorum 2 of 3: honest peers report [c0,c1,c2,c3], the third [c0,X,Y,c3]; after c1..c3 are final only index 3 is compared: '
+           'the deviating peer passes, is not banned and keeps counting toward the quorum')
+    census_fns.requires(ctx, 'C07.r6', 'CheckPoints::add_check_points', r'^Err\(Status::Ignore\)', r'Zip::all|Iterator::all|== ',
+                        'an answer that starts at an already known check point and agrees with the known ones is ignored (the peer is not banned for the client\'s repeated request)',
+                        'tick, tick, answer, answer: the second identical BlockFilterCheckPoints answer is CheckPointsIsUnexpected (473) and the honest peer is banned for 5 minutes')
     census_fns.run(ctx, 'C07')
